@@ -99,7 +99,7 @@ Fixpoint bytes_of_hex (s : list N) : res bytes :=
 
 (* UTF-8 as accepted by String::from_utf8 (Unicode table 3-7) *)
 Definition cont (b : N) : bool := (128 <=? b) && (b <=? 191).
-Definition inr (lo hi b : N) : bool := (lo <=? b) && (b <=? hi).
+Definition in_range (lo hi b : N) : bool := (lo <=? b) && (b <=? hi).
 Fixpoint utf8_dec (bs : bytes) : option (list N) :=
   match bs with
   | [] => Some []
@@ -108,19 +108,19 @@ Fixpoint utf8_dec (bs : bytes) : option (list N) :=
     else match r0 with
     | [] => None
     | b1 :: r1 =>
-      if inr 194 223 b0 then
+      if in_range 194 223 b0 then
         if cont b1 then option_map (cons ((b0 - 192) * 64 + (b1 - 128))) (utf8_dec r1) else None
       else match r1 with
       | [] => None
       | b2 :: r2 =>
-        if inr 224 239 b0 then
-          if (if b0 =? 224 then inr 160 191 b1 else if b0 =? 237 then inr 128 159 b1 else cont b1) && cont b2
+        if in_range 224 239 b0 then
+          if (if b0 =? 224 then in_range 160 191 b1 else if b0 =? 237 then in_range 128 159 b1 else cont b1) && cont b2
           then option_map (cons ((b0 - 224) * 4096 + (b1 - 128) * 64 + (b2 - 128))) (utf8_dec r2) else None
         else match r2 with
         | [] => None
         | b3 :: r3 =>
-          if inr 240 244 b0 then
-            if (if b0 =? 240 then inr 144 191 b1 else if b0 =? 244 then inr 128 143 b1 else cont b1)
+          if in_range 240 244 b0 then
+            if (if b0 =? 240 then in_range 144 191 b1 else if b0 =? 244 then in_range 128 143 b1 else cont b1)
                && cont b2 && cont b3
             then option_map (cons ((b0 - 240) * 262144 + (b1 - 128) * 4096 + (b2 - 128) * 64 + (b3 - 128)))
                             (utf8_dec r3)
